@@ -298,11 +298,60 @@ class Engine:
             results = self._split_results(results, fr)
         out = []
         for key, (s, rv) in results.items():
+            # lazy variant tests on this frame's locals are decided now, while the locals still exist
+            rv = self._close_conds(s, rv, fr.fid)
             # drop the frame's locals
             for loc in [l for l in s.locs if isinstance(l, tuple) and l[0] == fr.fid]:
                 del s.locs[loc]
             out.append((s, rv))
         return out
+
+    def _close_conds(self, st, v, fid, depth=0):
+        """Replace Bool conditions that mention a place of frame `fid` by their simplified form."""
+        if depth > 4:
+            return v
+        if isinstance(v, Bool):
+            c = v.cond
+            if self._cond_mentions(c, fid):
+                try:
+                    c2 = self.simplify_cond(st, c)
+                    if c2[0] == "isvar":
+                        # the tested local was copied / moved before the partition decided its variant: the copies share
+                        # the value's name, and the partition key records the decision
+                        ev = self.M.read_path(st, c2[1], c2[2])
+                        if isinstance(ev, Enum):
+                            want = self.T.variant_name(ev.ty, self.T.variant_by_discr(ev.ty, c2[3]))
+                            for k in reversed(st.key):
+                                if k[0] == "variant" and k[1] == ev.name and "|" not in str(k[2]):
+                                    c2 = ("const", (k[2] == want) == bool(c2[4]))
+                                    break
+                    return Bool(c2)
+                except Exception:
+                    return v
+            return v
+        if isinstance(v, Struct):
+            fs = tuple(self._close_conds(st, x, fid, depth + 1) for x in v.fields)
+            return v if all(a is b for a, b in zip(fs, v.fields)) else Struct(v.ty, fs)
+        if isinstance(v, Enum):
+            changed = False
+            vs = []
+            for vi, fs in v.variants:
+                nf = tuple(self._close_conds(st, x, fid, depth + 1) for x in fs)
+                changed = changed or any(a is not b for a, b in zip(nf, fs))
+                vs.append((vi, nf))
+            return Enum(v.ty, tuple(vs), v.name, v.guards) if changed else v
+        return v
+
+    def _cond_mentions(self, c, fid):
+        if not isinstance(c, tuple) or not c:
+            return False
+        if c[0] == "isvar":
+            return isinstance(c[1], tuple) and len(c[1]) == 2 and c[1][0] == fid
+        if c[0] in ("not",):
+            return self._cond_mentions(c[1], fid)
+        if c[0] in ("and", "or"):
+            return self._cond_mentions(c[1], fid) or self._cond_mentions(c[2], fid)
+        return False
 
     def _add_result(self, results, ns, rv, fr):
         ex = results.get(ns.key)
